@@ -29,6 +29,10 @@ class _Continue(Exception):
     pass
 
 
+class _Infeasible(BaseException):
+    """The current path rests on a combination of guesses that an assertion of the code rules out: it is dropped."""
+
+
 class Truncated(Exception):
     """Path abandoned because a loop bound was hit (never counted as a path)."""
 
@@ -223,6 +227,8 @@ class PX:
             except Truncated:
                 self.truncated += 1
                 self.truncated_paths.append(self._path("truncated", None))
+            except _Infeasible:
+                pass
             finally:
                 for g in self._live_gens:
                     g.close()
@@ -455,7 +461,14 @@ class PX:
                 if isinstance(k, slice) and any(isinstance(x, (Sym, Obj)) for x in (k.start, k.stop, k.step)):
                     k = Sym(f"{_short(k.start)}:{_short(k.stop)}")
                 self.emit("write", _text(t.value) + ".__delitem__", (k,), node=st, frame=fr, callee=f"{_short(d)}.__delitem__")
-                if isinstance(d, (dict, list, bytearray)) and not isinstance(k, (Sym, Obj)):
+                if isinstance(d, dict):
+                    hk = _hashable(k)
+                    if hk not in d and isinstance(k, Member) and k.value in d:
+                        hk = k.value
+                    if hk not in d:
+                        raise Exc("KeyError", (k,), origin=_text(t))
+                    del d[hk]
+                elif isinstance(d, (list, bytearray)) and not isinstance(k, (Sym, Obj)):
                     try:
                         del d[k.value if isinstance(k, Member) else k]
                     except KeyError:
@@ -478,6 +491,7 @@ class PX:
     s_AsyncFunctionDef = s_FunctionDef
 
     def s_Assert(self, st, fr):
+        t0, n0 = len(self._taken), len(self.assumes)
         v = self.ev(st.test, fr)
         if isinstance(v, Sym) and v.tag not in self.facts and v.tag not in self.memo:
             # an assertion over values the abstraction cannot evaluate is taken to hold (it is a statement of belief about
@@ -485,7 +499,12 @@ class PX:
             self.memo[v.tag] = True
             self.assumes.append((f"assert:{v.tag}", True))
             return
-        if not self.truth(v, fr, st):
+        ok = self.truth(v, fr, st)
+        if not ok and (len(self._taken) > t0 or len(self.assumes) > n0):
+            # the assertion fails only under a guess the abstraction made while evaluating it (a chained comparison or a
+            # boolean combination over unevaluable values): that combination of guesses is taken to be infeasible
+            raise _Infeasible()
+        if not ok:
             self.emit("assert-fail", _text(st.test), node=st, frame=fr)
             raise Exc("AssertionError", (), origin=_text(st.test))
 
@@ -783,6 +802,16 @@ class PX:
                     return
                 raise
             return
+        # contextlib.ExitStack / AsyncExitStack: contexts and callbacks registered in the body are unwound, last first, on every exit
+        if text in ("contextlib.ExitStack", "contextlib.AsyncExitStack", "ExitStack", "AsyncExitStack") and isinstance(ce, ast.Call) and not ce.args:
+            stack = _ExitStack(text.endswith("AsyncExitStack"))
+            if item.optional_vars is not None:
+                self.assign(item.optional_vars, stack, fr)
+            try:
+                run_body()
+            finally:
+                self._unwind_exit_stack(stack, fr, st)
+            return
         # repo @contextmanager generator, inlined
         if isinstance(ce, ast.Call):
             fval = self.ev(ce.func, fr)
@@ -819,6 +848,61 @@ class PX:
                 self.timeouts.pop()
             self.ctxstack = self.ctxstack[:-1]
             self.emit("exit", text, node=st, frame=fr)
+
+    def _unwind_exit_stack(self, stack, fr, st):
+        pending = None
+        while stack.items:
+            kind, a, b, c = stack.items.pop()
+            try:
+                if kind == "cm":
+                    if a in self.ctxstack:
+                        i = len(self.ctxstack) - 1 - self.ctxstack[::-1].index(a)
+                        self.ctxstack = self.ctxstack[:i] + self.ctxstack[i + 1:]
+                    if a.endswith("asyncio_timeout") or a.endswith("asyncio.timeout"):
+                        if a in self.timeouts:
+                            self.timeouts.remove(a)
+                    self.emit("exit", a, node=st, frame=fr)
+                else:
+                    self.do_call(a[0], a[1], list(b), dict(c), fr, st, False)
+            except Exc as ex:  # an exception raised while unwinding replaces the one in flight; the rest is still unwound
+                pending = ex
+        if pending is not None:
+            raise pending
+
+    def exit_stack_method(self, stack, name, text, args, kw, fr, node):
+        if name in ("enter_context", "enter_async_context"):
+            if not (isinstance(node, ast.Call) and node.args):
+                raise Unsupported(f"{fr.mod}: {name} without a visible context expression")
+            ce = node.args[0]
+            ctext = _text(ce.func) if isinstance(ce, ast.Call) else _text(ce)
+            cargs, ckw = self.ev_args(ce, fr) if isinstance(ce, ast.Call) else ((), {})
+            model = self.model_for("with:" + ctext)
+            val = Sym(f"with:{ctext}#{self._count('with:' + ctext)}")
+            if model is not None:
+                val = self.apply_model(model, ctext, list(cargs), ckw, fr, node, awaited=name == "enter_async_context", kind="enter")
+            else:
+                if name == "enter_async_context":
+                    self.epoch += 1
+                    if self.cancel and self.choose(2, f"cancel@enter {ctext}"):
+                        self.emit("cancelled", "enter " + ctext, node=node, frame=fr)
+                        raise Exc("CancelledError", origin="enter " + ctext)
+                self.emit("enter", ctext, cargs, ckw, node=node, frame=fr)
+            if ctext.endswith("asyncio_timeout") or ctext.endswith("asyncio.timeout"):
+                self.timeouts.append(ctext)
+            self.ctxstack = self.ctxstack + [ctext]
+            stack.items.append(("cm", ctext, None, None))
+            return val
+        if name in ("callback", "push_async_callback"):
+            if not args:
+                raise Exc("TypeError", (name,), origin=text)
+            # the callback keeps the access path it was registered under (self.remove_callback, listeners.remove, ...)
+            ctext = _text(node.args[0]) if isinstance(node, ast.Call) and node.args and not isinstance(node.args[0], ast.Starred) else "exit_stack_callback"
+            stack.items.append(("cb", (args[0], ctext), tuple(args[1:]), dict(kw)))
+            return args[0]
+        if name in ("close", "aclose"):
+            self._unwind_exit_stack(stack, fr, node)
+            return None
+        raise Unsupported(f"{fr.mod}: ExitStack.{name} is not modelled")
 
     def _with_generator(self, fval, target, args, kwargs, item, run_body, fr, st, text):
         state = {"signal": None, "yielded": 0}
@@ -994,6 +1078,15 @@ class PX:
             c = v.ctor
             if isinstance(c, (ClassRef, TypeRef)) and int_type_of(c) and len(v.args) == 1 and isinstance(v.args[0], (int, Member)) and not v.kwargs:
                 out = ZInt(int(v.args[0]), *int_type_of(c))
+            elif isinstance(c, TypeRef) and c.name in ("collections.Counter", "collections.defaultdict", "collections.OrderedDict", "collections.deque") and not v.kwargs \
+                    and (not v.args or (c.name == "collections.defaultdict" and len(v.args) == 1 and isinstance(v.args[0], TypeRef))):
+                # module-level bookkeeping containers (statistics counters ...): one real object for the life of the analysis
+                import collections as _c
+                if c.name == "collections.defaultdict":
+                    fac = {"builtins.int": int, "builtins.list": list, "builtins.set": set, "builtins.dict": dict}.get(v.args[0].name) if v.args else None
+                    out = _c.defaultdict(fac)
+                else:
+                    out = {"collections.Counter": _c.Counter, "collections.OrderedDict": _c.OrderedDict, "collections.deque": _c.deque}[c.name]()
             elif isinstance(c, ClassRef) and _is_namedtuple(c):
                 out = self._make_nt(c, [self.lift(a, depth + 1) for a in v.args], {k: self.lift(a, depth + 1) for k, a in v.kwargs.items()}, "lift")
             elif isinstance(c, ClassRef) and (_is_dataclass(c) or c.is_struct):
@@ -1162,7 +1255,7 @@ class PX:
             return _PyMethod(b, attr)
         if isinstance(b, Closure):
             return Sym(f"{b.name}.{attr}")
-        if type(b).__module__ == "re":
+        if type(b).__module__ == "re" or isinstance(b, _ExitStack):
             return _PyMethod(b, attr)
         raise Unsupported(f"{fr.mod}:{getattr(e, 'lineno', '?')} getattr {attr} on {b!r}")
 
@@ -1312,6 +1405,20 @@ class PX:
 
     def compare(self, op, l, r, fr, node):
         neg = False
+        # sets and dict views are only partially ordered: evaluate subset / superset tests directly
+        if isinstance(op, (ast.Lt, ast.LtE, ast.Gt, ast.GtE)) and (isinstance(l, (set, frozenset, _DictItems)) or isinstance(r, (set, frozenset, _DictItems))):
+            def as_set(x):
+                if isinstance(x, _DictItems):
+                    if x.kind == "values":
+                        raise Exc("TypeError", ("values view is not a set",))
+                    x = x.materialise()
+                if isinstance(x, (set, frozenset, list)):
+                    return {_hashable(i) for i in x}
+                raise Exc("TypeError", (f"ordering of a set and {type(x).__name__}",))
+            a, b = as_set(l), as_set(r)
+            if any(isinstance(i, Sym) or _has_sym(i) for i in a | b):
+                return Sym(f"({_short(l)} {type(op).__name__} {_short(r)})")
+            return {ast.Lt: a < b, ast.LtE: a <= b, ast.Gt: a > b, ast.GtE: a >= b}[type(op)]
         if isinstance(op, ast.NotEq):
             op, neg = ast.Eq(), True
         elif isinstance(op, ast.NotIn):
@@ -1460,6 +1567,8 @@ class PX:
                 return b[kk]
             if getattr(b, "default_factory", None) is not None and not isinstance(k, Sym) and not _has_sym(k):
                 return b[kk]  # collections.defaultdict: the missing entry is created
+            if hasattr(type(b), "__missing__") and not isinstance(k, Sym) and not _has_sym(k):
+                return b[kk]  # collections.Counter: a missing key reads as 0
             if b and (isinstance(k, Sym) or _has_sym(k) or any(isinstance(x, Sym) or _has_sym(x) for x in b)):
                 c = Sym(f"({_short(k)} in keys({_dict_tag(b)}))")
                 if self.truth(c, fr, e):
@@ -1697,6 +1806,8 @@ class PX:
         if isinstance(fval, Partial):
             return self.do_call(fval.f, text, list(fval.args) + list(args), {**fval.kwargs, **kw}, fr, node, awaited)
         if isinstance(fval, _PyMethod):
+            if isinstance(fval.obj, _ExitStack):
+                return self.exit_stack_method(fval.obj, fval.name, text, args, kw, fr, node)
             return self.py_method(fval, text, args, kw, fr, node)
         if isinstance(fval, TypeRef) and fval.name in ("builtins.int.from_bytes", "builtins.bytes.fromhex", "builtins.dict.fromkeys", "builtins.bytes.join",
                                                         "builtins.str.join", "builtins.int.to_bytes", "builtins.bytearray.fromhex"):
@@ -2358,6 +2469,17 @@ def int_type_of(t):
         if m:
             return int(m.group(2)), (m.group(1) == "" and m.group(3) == "s") or (m.group(1) == "" and m.group(3) == "_t" and False)
     return None
+
+
+class _ExitStack:
+    """contextlib.ExitStack / AsyncExitStack: the contexts entered and the callbacks registered so far."""
+
+    def __init__(self, is_async):
+        self.is_async = is_async
+        self.items = []
+
+    def __repr__(self):
+        return f"<ExitStack {len(self.items)}>"
 
 
 class _DCReplace:
